@@ -56,7 +56,7 @@ func init() {
 		"internal/bytealg.IndexByte": bytesIndexByte,
 		"fmt.Errorf":                fmtErrorf,
 		"fmt.Sprintf":               fmtSprintf,
-		"fmt.Sprint":                func(fr *frame, a []Value) Value { return Str{s: "<fmt.Sprint>"} },
+		"fmt.Sprint":                fmtSprint,
 		"fmt.Println":               func(fr *frame, a []Value) Value { return Tuple{fr.th.eng.pool.BV(0, 64), Iface{}} },
 		"fmt.Printf":                func(fr *frame, a []Value) Value { return Tuple{fr.th.eng.pool.BV(0, 64), Iface{}} },
 		"regexp.MustCompile":        regexpMustCompile,
@@ -271,17 +271,35 @@ func fmtSprintf(fr *frame, a []Value) Value {
 // format renders with the real fmt when every argument is concrete and of a
 // simple kind; otherwise an opaque (but deterministic) string.
 func (th *Thread) format(f string, args Slice) string {
+	gv, ok := th.goValues(args)
+	if !ok {
+		return f
+	}
+	return fmt.Sprintf(f, gv...)
+}
+
+// fmt.Sprint: computed with the real fmt when every operand is concrete, otherwise an opaque string
+func fmtSprint(fr *frame, a []Value) Value {
+	gv, ok := fr.th.goValues(a[0].(Slice))
+	if !ok {
+		return Str{s: "<fmt.Sprint>"}
+	}
+	return Str{s: fmt.Sprint(gv...)}
+}
+
+// goValues: the operands of a fmt call as Go values, if all of them are concrete and of a simple kind
+func (th *Thread) goValues(args Slice) ([]interface{}, bool) {
 	cells := th.sliceCells(args, "fmt args")
 	var gv []interface{}
 	for _, c := range cells {
 		iv, ok := c.(Iface)
 		if !ok {
-			return f
+			return nil, false
 		}
 		switch v := iv.v.(type) {
 		case *Term:
 			if !v.IsConst() {
-				return f
+				return nil, false
 			}
 			w, signed, _ := intInfo(iv.t)
 			switch {
@@ -295,14 +313,14 @@ func (th *Thread) format(f string, args Slice) string {
 		case Str:
 			s, ok := v.Concrete()
 			if !ok {
-				return f
+				return nil, false
 			}
 			gv = append(gv, s)
 		default:
-			return f
+			return nil, false
 		}
 	}
-	return fmt.Sprintf(f, gv...)
+	return gv, true
 }
 
 type regexObj struct {
@@ -402,11 +420,41 @@ func reflectValueOf(fr *frame, a []Value) Value {
 }
 
 func reflectKind(fr *frame, a []Value) Value {
-	p := fr.th.eng.pool
 	iv := a[0].(Struct)[0].(Iface)
+	return fr.th.eng.pool.BV(kindOfType(iv.t), 64)
+}
+
+// rtypeMethod: a method of reflect.Type invoked on the engine's type object
+type rtypeMethod struct {
+	name string
+	t    types.Type
+}
+
+func (th *Thread) rtypeInvoke(m rtypeMethod) Value {
+	p := th.eng.pool
+	switch m.name {
+	case "Kind":
+		return p.BV(kindOfType(m.t), 64)
+	case "String":
+		return Str{s: types.TypeString(m.t, func(p *types.Package) string { return p.Name() })}
+	case "Name":
+		if n, ok := m.t.(*types.Named); ok {
+			return Str{s: n.Obj().Name()}
+		}
+		if b, ok := m.t.(*types.Basic); ok {
+			return Str{s: b.Name()}
+		}
+		return Str{s: ""}
+	case "Comparable":
+		return p.Bool(types.Comparable(m.t))
+	}
+	panic(inconclusive{"unsupported reflect.Type method " + m.name})
+}
+
+func kindOfType(t types.Type) uint64 {
 	kind := uint64(0)
-	if iv.t != nil {
-		switch u := iv.t.Underlying().(type) {
+	if t != nil {
+		switch u := t.Underlying().(type) {
 		case *types.Signature:
 			kind = 19 // reflect.Func
 		case *types.Pointer:
@@ -460,7 +508,7 @@ func reflectKind(fr *frame, a []Value) Value {
 			}
 		}
 	}
-	return p.BV(kind, 64)
+	return kind
 }
 
 // time.Time is modelled as {wall: 0, ext: nanoseconds of the harness clock, loc: nil}.
